@@ -45,7 +45,9 @@ Definition pgm_ok_b (levels : list (Z * list item)) (pg : Z * Z * Z) : bool :=
   end.
 
 (* "built over exactly that level's current keys", as far as the dumped segments show it: the first segment starts at the
-   level's first key and every segment key is a key of the level or lies above its last key (closing / sentinel segments) *)
+   level's first key and every segment key is a key of the level, a guard point of one (key + 1 after a gap; an upper level of
+   the index may add its own guard on top: at most + 8 for the heights reached), or lies above the last key (closing /
+   sentinel segments) *)
 Definition pgm_keys_ok_b (levels : list (Z * list item)) (i : Z) (segkeys : list Z) : bool :=
   match List.find (fun lv => fst lv =? i) levels with
   | Some (_, items) =>
@@ -56,7 +58,8 @@ Definition pgm_keys_ok_b (levels : list (Z * list item)) (i : Z) (segkeys : list
           let lastk := last keys (it_key it0) in
           match segkeys with
           | [] => false
-          | k0 :: _ => (k0 =? it_key it0) && forallb (fun k => (lastk <? k) || existsb (Z.eqb k) keys) segkeys
+          | k0 :: _ => (k0 =? it_key it0) &&
+                       forallb (fun k => (lastk <? k) || existsb (fun x => (x <=? k) && (k <=? x + 8)) keys) segkeys
           end
       end
   | None => true
